@@ -679,6 +679,8 @@ def oracle(run, reg, vals, bads, d18):
     lap("oracle-entry-points")
     persist_oracle(run, good)
     lap("oracle-persistent")
+    persist_units(run, good)
+    lap("persist-units")
 
 
 # ------------------------------------------------------------------ oracle, part 2: every public entry point of the
@@ -808,7 +810,7 @@ def persist_oracle(run, good):
     site = "Serializable.store_persistant/load_persistant"
     objs = [g for g in good if isinstance(g[0], SL.Serializable) and len(g[1]) < 1500]
     others = [g for g in good if not isinstance(g[0], SL.Serializable) and len(g[1]) < 600]
-    n = 3000 if run.thorough() else 260
+    n = 4000 if run.thorough() else 800
     prev = None
     for i in range(n):
         run.evaluations += 1
@@ -925,3 +927,164 @@ def persist_oracle(run, good):
         if moved:
             run.nt(("persist", kind, variant, tuple(sorted(moved)), srepr(v)[:200]))
     run.count("persistent_trips", n)
+
+
+# ------------------------------------------------------------------ correspondence: the persistent format
+# (coq/Model/Persist.v, units persist_load / persist_store)
+
+def names_wire():
+    return [[[ord(ch) for ch in n], int(c.type_id)] for n, c in SL.S.SerializableType.names.items()]
+
+
+def impl_persist_load(data):
+    """-> ([result, stream reads, registry after, names after], pktable)"""
+    S = SL.S
+    T = S.SerializableType
+    st = SL.CountingStream(data)
+    with SL.StateGuard(), SL.KeyOracle() as ko:
+        try:
+            x = S.Serializable.load_persistant(st)
+            r = [0, [shape(x), len(data) - st.tell()]]
+        except Exception as e:      # noqa
+            r = [1, SL.exc_code(e)]
+        reg_after = [[t if type(t) is int else repr(t), int(c.type_id)] for t, c in T.registry.items()]
+        names_after = names_wire()
+        pkw = ko.wire()
+    return [r, st.reads, reg_after, names_after], pkw
+
+
+def persist_streams(run, good):
+    """[(label, bytes)]: stored records written by the REAL writer under other id assignments, with variants of the
+    stored table, then truncated / bit-flipped / crafted ones"""
+    r = run.rng
+    S = SL.S
+    T = S.SerializableType
+    Tt = run.thorough()
+    objs = [g[0] for g in good if isinstance(g[0], SL.Serializable) and len(g[1]) < 400]
+    out = []
+    valid = []
+    for i in range(400 if Tt else 60):
+        v = r.choice(objs)
+        kind, mapping = SL.gen_id_assignment(r, sorted(SL.ids_in(v)))
+        with SL.IdAssignment(mapping):
+            there = [(t, c.__name__) for t, c in T.registry.items()]
+            st = io.BytesIO()
+            S.serialize_value(st, v)
+            body = st.getvalue()
+            st = io.BytesIO()
+            v.store_persistant(st)
+            blob = st.getvalue()
+        variant = r.choice(["as-written", "subset", "unknown", "reordered", "duplicates"])
+        ps = list(there)
+        if variant == "subset":
+            keep = set(mapping.get(t, t) for t in SL.ids_in(v))
+            ps = [p for p in ps if p[0] in keep or r.random() < 0.3]
+        elif variant == "unknown":
+            for t in r.sample(range(128, 65536), 3):
+                if t not in dict(ps):
+                    ps.insert(r.randrange(len(ps) + 1), (t, r.choice(["VfNoSuchClass", "", "vfpoint", "VfPoint "])))
+        elif variant == "reordered":
+            r.shuffle(ps)
+        elif variant == "duplicates":
+            # the same id twice (the later entry wins), one class under two ids
+            a, b = r.choice(ps), r.choice(ps)
+            ps.insert(r.randrange(len(ps) + 1), (a[0], b[1]))
+            ps.append((r.choice([131, 40000, 65535]), a[1]))
+        data = blob if variant == "as-written" else mk_header(ps) + body
+        out.append(("valid-%s-%s" % (kind, variant), data + bytes(r.getrandbits(8) for _ in range(r.choice([0, 0, 3])))))
+        valid.append(data)
+    # malformed: truncations and bit flips of stored records (header and body)
+    for data in valid[: (12 if Tt else 3)]:
+        step = 1 if Tt else 7
+        out += [("trunc", data[:k]) for k in range(0, len(data), step)]
+        pos = range(len(data)) if Tt else sorted(set(list(range(8)) + [r.randrange(len(data)) for _ in range(60)] + list(range(len(data) - 24, len(data)))))
+        for i in pos:
+            k = r.randrange(8)
+            out.append(("flip", data[:i] + bytes([data[i] ^ (1 << k)]) + data[i + 1:]))
+    # crafted tables
+    H = struct.pack
+
+    def val(x):
+        st = io.BytesIO()
+        S.serialize_value(st, x)
+        return st.getvalue()
+    P = SL.VfPoint
+    body = P().dumpb()
+    pid = val(P.type_id)
+    counts = [val(n) for n in (0, 1, 2, 3, 2 ** 14 + 1, 2 ** 31, 2 ** 63 - 1, -1, -2 ** 63)] + \
+        [b"\x00\x01\x01", b"\x00\x01\x00", b"\x00\x0f", H(">Hf", 11, 2.0), val("2"), val(b"\x02"), b"\x00\x10\x00\x03\x00", b"\x00\x08\x02", b""]
+    ids = [pid, val(40000), val(0), val(3), val(-1), val(2 ** 40), b"\x00\x01\x01", H(">Hd", 12, float(P.type_id)), H(">Hf", 11, 300.0),
+           H(">Hd", 12, 300.5), H(">Hd", 12, float("nan")), val(str(P.type_id)), b"\x00\x0f", b"\x00\x10\x00\x03\x00", val(b"ab"), P().dumpb(),
+           b"\x00\x12\x00\x03\x00"]
+    nms = [val("VfPoint"), val("VfColor"), val("VfBag"), val("NoSuchClass"), val(""), val(7), b"\x00\x0f", b"\x00\x10\x00\x03\x00", val(b"VfPoint"),
+           H(">H", SL.VfName.type_id) + val("VfPoint"), H(">H", SL.VfName.type_id) + val("nope"), H(">H", SL.VfName.type_id) + val(5),
+           b"\x00\x0d\x00\x03\x09VfPo", P().dumpb(), b"\x00\x11\x00\x03\x00"]
+    for c in counts:
+        for i in ids[:3] + r.sample(ids[3:], 3):
+            for nm in nms[:2] + r.sample(nms[2:], 3):
+                out.append(("crafted", c + (i + nm) * 2 + body))
+    for i in ids:
+        for nm in nms:
+            out.append(("crafted", val(1) + i + nm + body))
+            out.append(("crafted", val(2) + pid + val("VfPoint") + i + nm + body))
+            # the body uses the id the entry declares (when it is one)
+            out.append(("crafted", val(1) + i + nm + H(">H", 300) + b"\x00\x03\x01\x00\x03\x05"))
+    return out
+
+
+def persist_units(run, good):
+    M = run.model
+    r = run.rng
+    S = SL.S
+    T = S.SerializableType
+    greg = dict(T.registry)
+    gregw = SL.wire_registry(greg)
+    namesw = names_wire()
+    streams = persist_streams(run, good)
+    impl, args = [], []
+    for label, data in streams:
+        res, pkw = impl_persist_load(data)
+        impl.append(res)
+        args.append([gregw, namesw, pkw, SL.BIG_FRAMES, data])
+        run.count("persist_load_" + label.split("-")[0])
+        if label.split("-")[0] != "valid" or "same" not in label:
+            run.nt(("persist_load", data))
+    mod = []
+    ci, ii, mm = [], [], []
+    for (label, data), a, m in zip(streams, impl, M.call_many("persist_load", args)):
+        mr = m[0]
+        if mr[0] == 0:
+            mr = [0, [SL.canon(mr[1][0]), mr[1][1]]]
+        if mr == [1, 9]:
+            # Persist.v's explicit `outside the model` (a SerializableEnum member as a stored id)
+            run.count("persist_load_excluded_outside_model")
+            continue
+        ci.append((label, data))
+        ii.append(a)
+        mm.append([mr, m[1], m[2], m[3]])
+    run.compare("persist_load", ci, ii, mm, describe=lambda c: lib.jsonable({"kind": c[0], "len": len(c[1]), "stream": c[1][:1500]}))
+    run.sample({"unit": "persist_load", "kind": streams[0][0], "stream": streams[0][1][:48].hex(), "impl": lib.jsonable(impl[0][0])[:2]})
+
+    # the writer, in a process with another id assignment
+    objs = [g[0] for g in good if isinstance(g[0], SL.Serializable) and len(g[1]) < 600]
+    cases, si, sargs = [], [], []
+    for i in range(600 if run.thorough() else 60):
+        v = r.choice(objs)
+        if i % 10 == 9:
+            v = SL.VfHigh()
+            v.v = SL.wrap_bad(r, SL.gen_bad_leaf(r), 1)
+        kind, mapping = SL.gen_id_assignment(r, sorted(SL.ids_in(v)))
+        with SL.StateGuard(), SL.IdAssignment(mapping):
+            regw = SL.wire_registry(dict(T.registry))
+            cn = [[int(t), [ord(ch) for ch in c.__name__]] for t, c in T.registry.items()]
+            vw = wire_of(v)
+
+            def f():
+                st = io.BytesIO()
+                v.store_persistant(st)
+                return st.getvalue()
+            si.append(SL.guarded(f))
+        sargs.append([regw, cn, vw])
+        cases.append((kind, srepr(v)[:200]))
+        run.nt(("persist_store", kind, srepr(v)[:200]))
+    run.compare("persist_store", cases, si, M.call_many("persist_store", sargs))
